@@ -7,8 +7,11 @@ pieces of the client it depends on for this property:
 * the stream fallback for unhandled IQ requests (`QXmppOutgoingClient::handleStanza`).
 
 Concrete state = what the C++ keeps (`entries`, `isRosterReceived`, `presences`, outstanding roster
-requests).  The history-level specification (`Ev`, `classify`, `specView`, `specPres`) is defined here too
-(definitions only); the theorems relating both are in `Qx/Props/C12.lean`.  No proofs here.
+requests).  The history-level specification (`Ev`, `Wire`, `wireEvent`, `wireTrace`, `specView`, `specPres`)
+is defined here too (definitions only); the theorems relating both are in `Qx/Props/C12.lean`.  No proofs here.
+
+The configured JID can be changed while running (`configuration().setJid`): `own` is therefore an argument of
+every step, `run`/`trace` thread it through the history (`nextOwn`).
 
 JID cutting (`bare`, `resource`) is the shared `Qx.Jid` (lean/Qx/Base/Jid.lean): `QXmppUtils::jidToBareJid` /
 `jidToResource`, split at the FIRST '/'.
@@ -79,6 +82,19 @@ inductive IqType | get | set | result | error
 inductive PType | available | unavailable | other
   deriving DecidableEq, Repr
 
+/-- the manager's own mutator API; `addItem`/`removeItem`/`renameItem` also stand for the task-returning
+`addRosterItem`/`removeRosterItem`/`renameRosterItem`, `subscribe`/`unsubscribe` for `subscribeTo`/
+`unsubscribeFrom` (same stanza; the task variants register the request with the IQ manager) -/
+inductive Api
+  | addItem (jid name : String) (groups : List String)
+  | removeItem (jid : String)
+  | renameItem (jid name : String)
+  | subscribe (jid : String)
+  | unsubscribe (jid : String)
+  | accept (jid : String)
+  | refuse (jid : String)
+  deriving DecidableEq, Repr
+
 inductive Op
   /-- session established (`openSession`): SM state at that moment, `client()->isAuthenticated()` -/
   | connected (sm : Sm) (auth : Bool)
@@ -90,6 +106,10 @@ inductive Op
   /-- any other roster IQ (`<query xmlns='jabber:iq:roster'/>`), in particular a push (`set`) -/
   | rosterIq (type : IqType) (sender : String) (id : String) (items : List Item)
   | presence (sender : String) (type : PType) (status : String)
+  /-- the application calls a mutator of the manager (`tracked`: the task-returning variant) -/
+  | api (call : Api) (tracked : Bool)
+  /-- `configuration().setJid(…)`: from now on `configuration().jidBare()` is `bareJid` -/
+  | setJid (bareJid : String)
   deriving DecidableEq, Repr
 
 inductive Out
@@ -98,8 +118,12 @@ inductive Out
   | itemChanged (jid : String)
   | itemRemoved (jid : String)
   | presenceChanged (bareJid : String) (res : String)
-  /-- roster request number `k` written to the stream -/
+  /-- roster request number `k` written to the stream (requests the client sends are numbered in order) -/
   | sentGet (k : Nat)
+  /-- request number `k` is a roster `set` with this one item (mutator API) -/
+  | sentSet (k : Nat) (item : Item)
+  /-- `<presence type=… to=…/>` written by the subscription API -/
+  | sentPresence (type : String) (to : String)
   /-- `<iq type='result' id=… to=…/>` sent by the roster manager (the acknowledgement of a push; `to` is the
       push's `from` attribute verbatim, absent when that was absent) -/
   | sentResult (id : String) (to : String)
@@ -111,8 +135,10 @@ structure St where
   entries : Entries := []
   received : Bool := false
   presences : PresTable := []
-  /-- roster requests awaiting their answer (`OutgoingIqManager::m_requests`, restricted to roster gets) -/
-  pending : List Nat := []
+  /-- roster requests awaiting their answer (`OutgoingIqManager::m_requests`, restricted to the manager's
+  roster gets): request number and the address the answer is expected from (the bare JID configured when
+  the request was sent, `QXmppOutgoingClient::sendIq`) -/
+  pending : List (Nat × String) := []
   nextReq : Nat := 1
   /-- `d->inSession`: between `connected()` and the `disconnected()` that ends that session -/
   inSession : Bool := false
@@ -124,10 +150,17 @@ def init : St := {}
 `fromJid.isEmpty() || jidToBareJid(fromJid) == configuration().jidBare()` -/
 def authorised (own sender : String) : Bool := sender = "" || bare sender = own
 
-/-- `OutgoingIqManager::handleStanza`: the id belongs to an outstanding request and the sender is absent or
-exactly the address the request went to (the account's bare JID for a request without `to`) -/
-def delivered (own : String) (s : St) (k : Nat) (sender : String) : Bool :=
-  s.pending.contains k && (sender = "" || sender = own)
+/-- `OutgoingIqManager::handleStanza` on a list of outstanding requests: the id belongs to one of them and
+the sender is absent or exactly the address that request went to (the account's bare JID at the time, for a
+request without `to`) -/
+def answers (asked : List (Nat × String)) (k : Nat) (sender : String) : Bool :=
+  asked.any (fun p => p.1 = k && (sender = "" || sender = p.2))
+
+/-- forget request `k` (`m_requests.erase`) -/
+def dropReq (asked : List (Nat × String)) (k : Nat) : List (Nat × String) :=
+  asked.filter (fun p => p.1 != k)
+
+def delivered (s : St) (k : Nat) (sender : String) : Bool := answers s.pending k sender
 
 /-- one item of a push (`handleStanza`, `case QXmppIq::Set`) -/
 def applyItem (e : Entries) (it : Item) : Entries :=
@@ -166,7 +199,7 @@ def step (own : String) (s : St) : Op → St × List Out
     let s1 : St := if sm = .resumed then { s with inSession := true }
                    else { s.cleared with pending := [], inSession := true }
     if !s1.received && auth then
-      ({ s1 with pending := s1.pending ++ [s1.nextReq], nextReq := s1.nextReq + 1 }, [.sentGet s1.nextReq])
+      ({ s1 with pending := s1.pending ++ [(s1.nextReq, own)], nextReq := s1.nextReq + 1 }, [.sentGet s1.nextReq])
     else (s1, [])
   | .disconnected smEnabled canResume =>
     -- closeSession: `iqManager.onSessionClosed` first, then `disconnected` reaches `_q_disconnected`
@@ -177,13 +210,15 @@ def step (own : String) (s : St) : Op → St × List Out
     else if smEnabled then ({ s1 with inSession := false }, [])
     else ({ s1.cleared with inSession := false }, [])
   | .response k sender ok items =>
-    if delivered own s k sender then
-      let s1 : St := { s with pending := s.pending.erase k }
+    if delivered s k sender then
+      let s1 : St := { s with pending := dropReq s.pending k }
       if ok then ({ s1 with entries := fromItems items, received := true }, [.rosterReceived])
       else (s1, [])
     else
-      -- not an answer the IQ manager accepts; it then reaches `handleStanza` as a roster IQ of type
-      -- result (ignored) or as a non-roster error IQ (not handled, no fallback for result/error)
+      -- not an answer the IQ manager accepts for a roster get (wrong sender, an id never used or already
+      -- answered, or the id of a mutator's `set`): it reaches `handleStanza` as a roster IQ of type result
+      -- (ignored) or as a non-roster IQ (not handled, no fallback for result/error); a tracked mutator
+      -- request consumes its answer as a generic IQ — the roster is not involved
       (s, [])
   | .rosterIq type sender id items =>
     if authorised own sender then
@@ -206,12 +241,33 @@ def step (own : String) (s : St) : Op → St × List Out
     | .available => ({ s with presences := setRes s.presences b r status }, [.presenceChanged b r])
     | .unavailable => ({ s with presences := delRes s.presences b r }, [.presenceChanged b r])
     | .other => (s, [])
+  | .api call _ =>
+    -- the mutators only SEND; the cache changes when (and only when) the server's push arrives
+    match call with
+    | .addItem j n g =>
+      ({ s with nextReq := s.nextReq + 1 }, [.sentSet s.nextReq { jid := j, name := n, sub := .notSet, groups := g }])
+    | .removeItem j =>
+      ({ s with nextReq := s.nextReq + 1 }, [.sentSet s.nextReq { jid := j, name := "", sub := .remove, groups := [] }])
+    | .renameItem j n =>
+      match lookupKey j s.entries with
+      | some it => ({ s with nextReq := s.nextReq + 1 }, [.sentSet s.nextReq { it with name := n }])
+      | none => (s, [])
+    | .subscribe j => (s, [.sentPresence "subscribe" (bare j)])
+    | .unsubscribe j => (s, [.sentPresence "unsubscribe" (bare j)])
+    | .accept j => (s, [.sentPresence "subscribed" j])
+    | .refuse j => (s, [.sentPresence "unsubscribed" j])
+  | .setJid _ => (s, [])
+
+/-- the configured bare JID after an operation -/
+def nextOwn (own : String) : Op → String
+  | .setJid j => j
+  | _ => own
 
 def run (own : String) (s : St) : List Op → St × List Out
   | [] => (s, [])
   | op :: ops =>
     let r1 := step own s op
-    let r2 := run own r1.1 ops
+    let r2 := run (nextOwn own op) r1.1 ops
     (r2.1, r1.2 ++ r2.2)
 
 /-- `getResources(bare)` -/
@@ -247,7 +303,7 @@ def Ev.isPresOf (b r : String) : Ev → Bool
 def classify (own : String) (s : St) : Op → Ev
   | .connected sm _ => if sm = .resumed then .other else .clear
   | .disconnected smEnabled _ => if s.inSession && !smEnabled then .clear else .other
-  | .response k sender ok items => if delivered own s k sender && ok then .full items else .other
+  | .response k sender ok items => if delivered s k sender && ok then .full items else .other
   | .rosterIq type sender _ items => if authorised own sender && type = .set then .push items else .other
   | .presence sender type status =>
     if bare sender = "" then .other else
@@ -255,6 +311,8 @@ def classify (own : String) (s : St) : Op → Ev
     | .available => .pres (bare sender) (resource sender) true status
     | .unavailable => .pres (bare sender) (resource sender) false status
     | .other => .other
+  | .api _ _ => .other
+  | .setJid _ => .other
 
 /-- events as the PROPERTY draws the boundaries: a session's view ends only where a session that is not
 its resumption begins; `disconnected` signals in between end nothing -/
@@ -264,11 +322,74 @@ def classifyS (own : String) (s : St) : Op → Ev
 
 def trace (own : String) (s : St) : List Op → List Ev
   | [] => []
-  | op :: ops => classify own s op :: trace own (step own s op).1 ops
+  | op :: ops => classify own s op :: trace (nextOwn own op) (step own s op).1 ops
 
 def traceS (own : String) (s : St) : List Op → List Ev
   | [] => []
-  | op :: ops => classifyS own s op :: traceS own (step own s op).1 ops
+  | op :: ops => classifyS own s op :: traceS (nextOwn own op) (step own s op).1 ops
+
+/-! ### events read off the wire alone
+
+`classify` above consults the model's state.  The same events can be determined by an observer who sees only
+what crosses the stream — the stanzas arriving, the session signals, and the roster requests the client
+itself sends — and applies the sender rules spelled out below; `wireTrace_eq_trace` (Proofs) shows both
+agree, and the top theorem of `Qx/Props/C12.lean` is stated with `wireTrace`. -/
+
+/-- what the observer keeps: the roster requests seen leaving the client that are still unanswered (number,
+bare JID configured when it left = the only non-empty sender its answer may carry), and whether a session is
+established -/
+structure Wire where
+  asked : List (Nat × String) := []
+  inSession : Bool := false
+  deriving DecidableEq, Repr
+
+/-- **the sender rules**, with nothing hidden:
+* a roster IQ of type `set` is a *push* iff it has no sender or `bare sender = own` (the configured bare JID
+  at that moment; a full JID of the own account passes, any other bare JID — other case, other domain, the
+  server's domain, a prefix or suffix look-alike — does not);
+* an IQ result is a *full roster* iff its id is that of a roster request the client sent and that is still
+  unanswered and not cancelled, and it has no sender or its sender is exactly the bare JID the request was
+  addressed to;
+* everything else — roster IQs of other types, results with foreign senders, unknown or already used ids,
+  answers to the mutators' `set` requests, API calls, JID changes — is no event for the roster. -/
+def wireEvent (own : String) (w : Wire) : Op → Ev
+  | .connected sm _ => if sm = .resumed then .other else .clear
+  | .disconnected smEnabled _ => if w.inSession && !smEnabled then .clear else .other
+  | .response k sender ok items => if answers w.asked k sender && ok then .full items else .other
+  | .rosterIq type sender _ items =>
+    if (sender = "" || bare sender = own) && type = .set then .push items else .other
+  | .presence sender type status =>
+    if bare sender = "" then .other else
+    match type with
+    | .available => .pres (bare sender) (resource sender) true status
+    | .unavailable => .pres (bare sender) (resource sender) false status
+    | .other => .other
+  | .api _ _ => .other
+  | .setJid _ => .other
+
+/-- roster requests among what the client wrote during a step -/
+def askedNow (own : String) (outs : List Out) : List (Nat × String) :=
+  outs.filterMap fun | .sentGet k => some (k, own) | _ => none
+
+/-- how the observer's bookkeeping moves: session signals as the stream layer defines them (a connect that is
+not a resumption cancels every outstanding request, a disconnect that cannot be resumed too), an accepted
+answer uses its request up, requests seen leaving the client are added -/
+def Wire.step (w : Wire) (own : String) (op : Op) (outs : List Out) : Wire :=
+  let w1 : Wire :=
+    match op with
+    | .connected sm _ => if sm = .resumed then { w with inSession := true } else { asked := [], inSession := true }
+    | .disconnected _ canResume => { asked := if canResume then w.asked else [], inSession := false }
+    | .response k sender _ _ => if answers w.asked k sender then { w with asked := dropReq w.asked k } else w
+    | _ => w
+  { w1 with asked := w1.asked ++ askedNow own outs }
+
+/-- the events of a history as the observer determines them (the model is run alongside only to produce the
+client's outputs, of which the observer uses the roster requests) -/
+def wireTrace (own : String) (s : St) (w : Wire) : List Op → List Ev
+  | [] => []
+  | op :: ops =>
+    let r := step own s op
+    wireEvent own w op :: wireTrace (nextOwn own op) r.1 (w.step own op r.2) ops
 
 /-- the part of `l` after its last element satisfying `p` (all of `l` if there is none) -/
 def afterLast {α : Type} (p : α → Bool) (l : List α) : List α :=
@@ -340,5 +461,12 @@ def resumesContinueSmSession (ops : List Op) : Bool := resumesOkFrom {} ops
 def Op.isForeign (own : String) : Op → Bool
   | .rosterIq _ sender _ _ => !authorised own sender
   | _ => false
+
+/-- a history with every roster IQ the sender check rejects taken out (the check is made against the bare JID
+configured at that point of the history) -/
+def dropForeign (own : String) : List Op → List Op
+  | [] => []
+  | op :: ops =>
+    if op.isForeign own then dropForeign own ops else op :: dropForeign (nextOwn own op) ops
 
 end Qx.C12
